@@ -58,7 +58,7 @@ var NestDepths = []int{20, 100, 400}
 // Mutation kinds (near-miss: designed to hit one compile-error class each).
 var MutKinds = []string{
 	"ident-swap", "ident-undefined", "type-swap", "lit-swap", "drop-arg", "add-arg", "drop-line", "dup-line",
-	"drop-return", "define-assign", "lhs-count", "unused-var", "unused-import", "op-swap", "dup-decl",
+	"drop-return", "define-assign", "lhs-count", "unused-var", "unused-import", "op-swap", "dup-decl", "dup-case",
 	"drop-token", "insert-token", "dup-span", "truncate", "swap-tokens", "nest", "splice",
 }
 
@@ -155,7 +155,7 @@ func Mutate(r *vh.Rand, src string, kind string, other string) (out string, ok b
 			}
 		}
 		return src, false
-	case "drop-line", "dup-line", "drop-return", "dup-decl":
+	case "drop-line", "dup-line", "drop-return", "dup-decl", "dup-case":
 		var idx []int
 		for i, l := range lines {
 			t := strings.TrimSpace(l)
@@ -165,6 +165,10 @@ func Mutate(r *vh.Rand, src string, kind string, other string) (out string, ok b
 			switch kind {
 			case "drop-return":
 				if !strings.HasPrefix(t, "return") {
+					continue
+				}
+			case "dup-case":
+				if !(strings.HasPrefix(t, "case ") || strings.HasPrefix(t, "default")) {
 					continue
 				}
 			case "dup-decl":
